@@ -167,5 +167,16 @@ PROPS["C15"] = dict(
     assumptions=["a data race report, a crash of the test process or two goroutines inside the transport Write count as violations", "20 s without progress counts as a stall"],
 )
 
+PROPS["C17"] = dict(
+    pkg="c17", level="exploration",
+    rule="generated JSON documents decorated with // and /* */ comments at token boundaries (strings rich in quotes, backslashes, comment markers), read through segmented readers; oracle: library decode of the "
+         "decorated text == encoding/json decode of the undecorated text; comment-free text passes through byte for byte; per-check rules under coverage.checks",
+    quick=dict(timeout=600), thorough=dict(shards=16, timeout=3000),
+    technique="property-based metamorphic testing (rapid): decorate-with-comments must not change the decoded value (differential against encoding/json on the undecorated text)",
+    level_text="Random exploration with shrinking over values, whitespace, comment placement/bodies and read segmentation.",
+    level_note="Marker-free runs stay far below bufio.Scanner's 64 KiB token limit (beyond it the reader returns the explicit 'token too long' error; a stated bound, not a finding). Comments are placed only between tokens.",
+    assumptions=["encoding/json on the undecorated text defines the meaning of the document"],
+)
+
 NOT_APPLICABLE = {}
 HOOK_COMMITS = []
